@@ -697,6 +697,24 @@ pub fn decide_among(alts: &[SymBool]) -> usize {
     })
 }
 
+/// The concrete value of `v` on this path, found by bisection over `lo..=hi` (forks over every
+/// feasible value): used when code asks a symbolic value for a primitive.
+pub fn concretize(v: SymInt, lo: i64, hi: i64) -> i64 {
+    if let Some(n) = v.as_const() {
+        return n;
+    }
+    let (mut lo, mut hi) = (lo, hi);
+    while lo < hi {
+        let mid = lo + (hi - lo + 1) / 2;
+        if decide(v.lt(SymInt::Const(mid))) {
+            hi = mid - 1;
+        } else {
+            lo = mid;
+        }
+    }
+    lo
+}
+
 /// Restrict the inputs: paths on which `b` cannot hold are dropped, others continue under `b`.
 pub fn assume(b: SymBool) {
     match b {
